@@ -73,11 +73,14 @@ def knobs_for(doc):
             for c in CARDS:
                 out.append(["card", t, "val_cardinality", list(c)])
             for dep in ("sibling", "missing", "subsection", "both"):
-                for dv in ("first", "second", "none-equal", None, "text-of-int"):
-                    for tv in ("keep", "empty", "int"):
+                for dv in ("first", "second", "none-equal", None, "text-of-int", "near-miss-text", "other-type"):
+                    for tv in ("keep", "empty", "int", "boolean", "date"):
+                        if dv in ("near-miss-text", "other-type") and tv in ("keep", "empty"):
+                            continue
                         out.append(["dependency", t, dep, dv, tv])
             out.append(["tuple-length", t])
-            out.append(["value-not-of-dtype", t])
+            for variant in ("str-in-int", "datetime-in-date", "str-in-date", "str-in-boolean", "float-text-in-int"):
+                out.append(["value-not-of-dtype", t, variant])
     # duplicate sibling names (private field: the public API refuses them)
     for t, o in objs:
         if t == "D" or ":" in t:
@@ -124,6 +127,15 @@ def apply_knob(doc, knob):
             sib.dtype = None
             sib._dtype = "int"
             sib.values = [5, 6]
+        elif tv == "boolean":
+            sib.values = []
+            sib.dtype = "boolean"
+            sib.values = [False]
+        elif tv == "date":
+            import datetime as _dt
+            sib.values = []
+            sib.dtype = "date"
+            sib.values = [_dt.date(2020, 1, 2)]
         vals = sib.values
         if dep == "sibling":
             o.dependency = sib.name
@@ -143,6 +155,12 @@ def apply_knob(doc, knob):
             o.dependency_value = "nothing-equals-this"
         elif dv == "text-of-int":
             o.dependency_value = "5"
+        elif dv == "near-miss-text":
+            # text an *input conversion* to the target's dtype would turn into one of its values, but which is not
+            # equal to any of them, not even as text
+            o.dependency_value = {"int": "5.9", "boolean": "f", "date": "2020-1-2"}.get(tv, "5.9")
+        elif dv == "other-type":
+            o.dependency_value = {"int": 5.0, "boolean": 0, "date": 20200102}.get(tv, 5.0)
         else:
             o.dependency_value = None
     elif k == "tuple-length":
@@ -151,10 +169,17 @@ def apply_knob(doc, knob):
         o.values = ["(1;2)"]
         o._values = [["1", "2", "3"]]
     elif k == "value-not-of-dtype":
+        import datetime as _dt
+        variant = knob[2] if len(knob) > 2 else "str-in-int"
+        dtype, good, bad = {"str-in-int": ("int", [1], ["x"]),
+                            "datetime-in-date": ("date", [_dt.date(2020, 1, 2)], [_dt.datetime(2020, 1, 2, 3, 4, 5)]),
+                            "str-in-date": ("date", [_dt.date(2020, 1, 2)], ["2020-13-45"]),
+                            "str-in-boolean": ("boolean", [True], ["maybe"]),
+                            "float-text-in-int": ("int", [1], [1, "2.5x"])}[variant]
         o.values = []
-        o.dtype = "int"
-        o.values = [1]
-        o._values = ["x"]
+        o.dtype = dtype
+        o.values = good
+        o._values = bad
     elif k == "dup-name":
         other = objs.get(knob[2])
         if other is None:
